@@ -500,6 +500,8 @@ pub struct Ctx<F: PrimeField> {
     pub trace: Vec<CallLog<F>>,
     pub dev: Dev<F>,
     pub problems: Vec<String>,
+    /// multipliers_len() values that differ from the reference allocator's gate count
+    pub len_notes: Vec<String>,
     /// number of witness inputs seen (for enumerating Dev::Witness sites)
     pub witness_sites: usize,
     /// app data appended by T ops, in order (what was actually appended)
@@ -534,6 +536,7 @@ impl<F: PrimeField> Ctx<F> {
             trace: vec![],
             dev,
             problems: vec![],
+            len_notes: vec![],
             witness_sites: 0,
             appended: vec![],
             closures_run: 0,
@@ -888,7 +891,10 @@ pub fn exec_op<F: PrimeField>(op: Op, ctx: &mut Ctx<F>, side: &mut dyn Side<F>) 
         ));
     }
     if mult_len != expected_len {
-        ctx.problems.push(format!(
+        // informational: the statement under test only requires the two roles to agree on the
+        // count (C16 compares them with each other); a count that differs from the model's is
+        // not by itself a divergence of the constraint systems
+        ctx.len_notes.push(format!(
             "op #{} {}: multipliers_len() = {} but the reference allocator has {}",
             ctx.opcount - 1,
             op.name(),
@@ -924,10 +930,10 @@ fn end_of_section<F: PrimeField>(ctx: &mut Ctx<F>, side: &mut dyn Side<F>, last:
                     a.o[gate] = a.l[gate] * a.r[gate];
                 }
                 let (l, r, o) = (a.l[gate], a.r[gate], a.o[gate]);
-                if gate < side.cs().multipliers_len() {
+                if ctx.problems.is_empty() {
                     side.override_gate(gate, l, r, o);
                 } else {
-                    ctx.problems.push(format!("gate override: the subject has no gate {}", gate));
+                    ctx.problems.push(format!("gate override skipped for gate {}: the subject's handles already diverge from the model", gate));
                 }
             }
         }
@@ -943,10 +949,10 @@ fn end_of_section<F: PrimeField>(ctx: &mut Ctx<F>, side: &mut dyn Side<F>, last:
                     _ => a.o[gate] += delta,
                 }
                 let (l, r, o) = (a.l[gate], a.r[gate], a.o[gate]);
-                if gate < side.cs().multipliers_len() {
+                if ctx.problems.is_empty() {
                     side.override_gate(gate, l, r, o);
                 } else {
-                    ctx.problems.push(format!("gate override: the subject has no gate {}", gate));
+                    ctx.problems.push(format!("gate override skipped for gate {}: the subject's handles already diverge from the model", gate));
                 }
             }
         }
